@@ -374,7 +374,7 @@ class Session:
 
 
 def budget_parse(text):
-    return 600000 + 1500 * len(text)
+    return 300000 + 600 * len(text)
 
 
 def scrub(rec_plan):
@@ -543,7 +543,7 @@ def exec_c11(plan):
                     return S.pass_callable(opname, op.get("override"), target)
                 return S.analyse_callable(op, target, j, fresh_for_eq)
 
-            budget = 30_000_000
+            budget = 5_000_000
             ot = seams.outcome_of(mk(fresh, fresh2), S.clock, budget)
             # ---- cancellation at line event k of the same operation on the shared object
             if op.get("interrupt") is not None and ot.get("steps", 0) > 0:
@@ -953,12 +953,13 @@ def exec_c16(plan, role="main", order=None):
             except BaseException as e:
                 raise
             fn = c16_callable(S, op, j)
-            budget = budget_parse(text) + (30_000_000 if op.get("via") in ("run", "run_string") else 0)
+            budget = budget_parse(text) + (5_000_000 if op.get("via") in ("run", "run_string") else 0)
             allowed = allowed_for(S, op)
             if op.get("fault"):
                 S.fault("text:" + op["fault"]["kind"])
             if role == "main" and op.get("interrupt") is not None:
-                k = 1 + int(op["interrupt"] * (400 + 14 * len(text)))
+                # estimate of the call's line events (measured: 40-100 per character)
+                k = 1 + int(op["interrupt"] * (100 if op.get("via") in ("run", "run_string") else 60) * max(len(text), 8))
                 oi = seams.outcome_of(fn, S.clock, budget, inject_at=k)
                 if oi["kind"] == "interrupt":
                     S.fault("interrupt")
@@ -1139,7 +1140,7 @@ def exec_c10(plan):
             hist.append(("noparse", o0["kind"]))
             return finish(S, plan, st, hist)
         c0 = o0["value"]
-        BUD = 20_000_000
+        BUD = 5_000_000
 
         def apply(tok, c):
             name = {"M": "expand_macros", "Mp": "expand_macros_preserve", "L": "fill_in_let_O", "S": "expand_subcircuits", "A": "fill_in_map"}[tok]
